@@ -80,6 +80,7 @@ func vSameToks(a, b []vTok) bool {
 }
 
 type vSeqSpec struct {
+	goEmpty   bool // also run with XmlGoEmptyElemSyntax
 	keyPrefix bool // also run with other prefixes of the reserved keys (SetGlobalKeyMapPrefix)
 	depth, maxKids, maxAttrs int
 	nameAlpha                string
@@ -166,6 +167,10 @@ func vC04(s vSeqSpec) {
 		SetGlobalKeyMapPrefix([]string{"#", "%"}[vChoose(2)])
 		defer SetGlobalKeyMapPrefix("#")
 	}
+	if s.goEmpty && vChoose(2) == 1 {
+		XmlGoEmptyElemSyntax() // <a></a> instead of <a/>: the same token stream
+		defer XmlDefaultEmptyElemSyntax()
+	}
 	doc, mixed := vNondetSeqDoc(s, s.depth)
 	want, okw := vRawTokens([]byte(doc))
 	vAssume(okw)
@@ -215,7 +220,7 @@ func vC04(s vSeqSpec) {
 
 // sibling order: interleaved equal and different names, text alone or before children
 func H_C04_seq() {
-	s := vSeqSpec{depth: 1, maxKids: vP("kids", 3, 4), maxAttrs: vP("attrs", 0, 1), nameAlpha: "ab", text: true, extras: vP("extras", 0, 1) == 1}
+	s := vSeqSpec{depth: 1, maxKids: vP("kids", 3, 4), maxAttrs: vP("attrs", 0, 1), nameAlpha: "ab", text: true, extras: vP("extras", 0, 1) == 1, goEmpty: true}
 	vC04(s)
 }
 
@@ -226,7 +231,7 @@ func H_C04_seq_nested() {
 
 // attributes in order, namespace prefixes, xmlns attributes
 func H_C04_seq_attrs() {
-	s := vSeqSpec{depth: 1, maxKids: vP("kids", 1, 2), maxAttrs: vP("attrs", 2, 3), nameAlpha: "ab", prefixes: true, text: vP("text", 0, 1) == 1}
+	s := vSeqSpec{depth: 1, maxKids: vP("kids", 1, 2), maxAttrs: vP("attrs", 2, 3), nameAlpha: "ab", prefixes: true, text: vP("text", 0, 1) == 1, goEmpty: true}
 	vC04(s)
 }
 
